@@ -35,7 +35,7 @@ func main() {
 			defer pprof.StopCPUProfile()
 		}
 	}
-	debug.SetGCPercent(800) // the prover allocates many short-lived rows; memory is not the constraint
+	debug.SetGCPercent(200) // the prover allocates many short-lived rows; memory is not the constraint
 	start := time.Now()
 	var ids []string
 	if *prop == "all" {
